@@ -25,7 +25,7 @@ PROPS["C01"] = {
                     "verifref curve constants are computed from their definitions and self-tested against RFC 8032 vectors",
                     "Go's crypto/ed25519 (1.23) defines the StdLib behaviour"],
     "units": [{
-        "pkg": "primitives/ed25519", "configs": ALL4,
+        "pkg": "primitives/ed25519", "configs": ALL4T,
         "tests": {
             "TestC01Verify": T(4000, 100000, env=_C01_ENV, shards={"quick": 8}),
             "FuzzC01Verify": FUZZ(120, configs=["default"], env=_C01_ENV),
